@@ -601,6 +601,45 @@ def check_retry(ctx, case):
                                {"why": "checkout from the cache fetched by a failed round + retry does not reproduce a file of a directory object", "path": "/".join(d + r)}, signature=sig2)
 
 
+def check_add_order(ctx, rng):
+    """StorageMapping: the (data, cache, remote) a key resolves to is, per role, the storage declared at the longest prefix of
+    the key that declares that role - whatever the order of the add_data / add_cache / add_remote calls (F29)"""
+    from dvc_data.index.index import FileStorage, StorageKeyError, StorageMapping
+
+    pool = [(), ("c",), ("c", "tree"), ("c", "tree", "s"), ("b",), ("b", "x")]
+    decl = {}
+    for _ in range(rng.randrange(2, 7)):
+        decl[(rng.choice(pool), rng.choice(["data", "cache", "remote"]))] = "S%d" % len(decl)
+    items = sorted(decl.items())
+    orders = [rng.sample(items, len(items)) for _ in range(3)] + [items, items[::-1]]
+    probes = pool + [("c", "tree", "s", "g0"), ("c", "other"), ("b", "x", "y"), ("a",)]
+
+    def want(key, role):
+        best = None
+        for (pfx, r), name in items:
+            if r == role and key[:len(pfx)] == pfx and (best is None or len(pfx) > len(best[0])):
+                best = (pfx, name)
+        return best[1] if best else None
+
+    case = {"add_order": [[list(p), r, n] for (p, r), n in items]}
+    ctx.case(case, nontrivial=len({p for (p, _r) in decl}) >= 2)
+    ctx.count("add_order: %d declarations" % len(items))
+    for order in orders:
+        sm = StorageMapping()
+        for (pfx, role), name in order:
+            getattr(sm, "add_" + role)(FileStorage(pfx, stores.fs_local(), "/nowhere/" + name))
+        for key in probes:
+            try:
+                info = sm[key]
+                got = {r: (os.path.basename(getattr(info, r).path) if getattr(info, r) else None) for r in ("data", "cache", "remote")}
+            except StorageKeyError:
+                got = {"data": None, "cache": None, "remote": None}
+            exp = {r: want(key, r) for r in ("data", "cache", "remote")}
+            ctx.oracle(got == exp, case, {"why": "a key does not resolve, per role, to the storage declared at its longest prefix declaring that role "
+                                                 "(the outcome depends on the order of the add_* calls)",
+                                          "key": list(key), "order": [[list(p), r, n] for (p, r), n in order], "got": got, "expected": exp})
+
+
 def run(ctx):
     ctx.rule = (
         "indexes with files and directory objects (nested listings, contents shared between trees and prefixes) under 1-4 storage "
@@ -617,6 +656,8 @@ def run(ctx):
         check_file_remote(ctx, gen_file_remote(ctx.rng))
     for _ in range(ctx.n(32, 400)):
         check_retry(ctx, gen_retry(ctx.rng))
+    for _ in range(ctx.n(60, 600)):
+        check_add_order(ctx, ctx.rng)
 
 
 def search(ctx):
